@@ -32,11 +32,12 @@ type st = {
   mutable pair : (float array * float array * string * string * float) option;
   mutable lj2 : (lj * lj * float * float) option;
   mutable nomodel : bool;
+  mutable ord : (float option array * string * string * string * string * string) option;
 }
 
 let fresh () = { spec = ""; syms = []; site = None; cell = None; kind = '?'; segs = []; discs = []; ljs = [];
                  radius = 0.; area = 0.; rel = []; cart = []; img_hdr = None; imgs = []; score = None;
-                 carea = None; minsep = nan; pair = None; lj2 = None; nomodel = false }
+                 carea = None; minsep = nan; pair = None; lj2 = None; nomodel = false; ord = None }
 
 let tf_of_arr (a : float array) : tf =
   { a00 = f2c a.(0); a01 = f2c a.(1); a02 = f2c a.(2); a10 = f2c a.(3); a11 = f2c a.(4); a12 = f2c a.(5);
@@ -72,6 +73,34 @@ let run_case (c : st) : string =
   let strength = ref 0 in
   let band = ref 0 in
   let upd k = if k > !strength then strength := k in
+  (* C09 / C10: the order on states against the model's score_cmp / score_eq / max (Pipeline.v) *)
+  (match c.ord with
+   | Some (sc, cmps, eqs, left, right, iter) ->
+       let o i = Option.map f2c sc.(i) in
+       let code i j = match score_cmp numF (o i) (o j) with Some Lt -> 'L' | Some Eq -> 'E' | Some Gt -> 'G' | None -> 'N' in
+       let mc = String.init 9 (fun k -> code (k / 3) (k mod 3)) in
+       let me = String.init 9 (fun k -> if score_eq numF (o (k / 3)) (o (k mod 3)) then '1' else '0') in
+       if mc <> cmps then note (Printf.sprintf "partial_cmp of the states: model %s impl %s" mc cmps);
+       if me <> eqs then note (Printf.sprintf "== of the states: model %s impl %s" me eqs);
+       (* identical variants are interchangeable: the harness names the last one *)
+       let field k = try List.find_map (fun t -> let p = k ^ "=" in let n = String.length p in
+                         if String.length t > n && String.sub t 0 n = p then Some (String.sub t n (String.length t - n)) else None)
+                         (String.split_on_char ' ' c.spec) with Not_found -> None in
+       let three k = match field k with Some v -> Array.of_list (String.split_on_char ':' v) | None -> [| "0"; "0"; "0" |] in
+       let dl = three "dlen" and dx = three "dx" in
+       let canon i = let r = ref i in for j = 0 to 2 do if dl.(j) = dl.(i) && dx.(j) = dx.(i) then r := j done; !r in
+       (* Ord::max: never panics; unordered keeps the second *)
+       let mx i j = if max_keeps_first numF (o i) (o j) then i else j in
+       let ml = string_of_int (canon (mx (mx 0 1) 2)) and mr = string_of_int (canon (mx 0 (mx 1 2))) in
+       (* Iterator::max folds with Ord::cmp (unwrap): any unordered comparison is a panic; ties keep the later *)
+       let step acc j = match acc with
+         | None -> None
+         | Some i -> (match score_cmp numF (o i) (o j) with Some Gt -> Some i | Some _ -> Some j | None -> None) in
+       let mi = match step (step (Some 0) 1) 2 with Some i -> string_of_int (canon i) | None -> "P" in
+       if ml <> left then note (Printf.sprintf "max(max(a,b),c): model %s impl %s" ml left);
+       if mr <> right then note (Printf.sprintf "max(a,max(b,c)): model %s impl %s" mr right);
+       if mi <> iter then note (Printf.sprintf "iter().max(): model %s impl %s" mi iter)
+   | None -> ());
   (match c.lj2 with
    | Some (a, b, eab, eba) ->
        (* the shifted energy is a difference of terms that can be far larger than the result: the
@@ -102,6 +131,7 @@ let run_case (c : st) : string =
            else note (Printf.sprintf "%s: model %b, implementation %s (oracle separation %e)" name m i sep)
          end in
        chk "intersects(a,b)" m_ab ab; chk "intersects(b,a)" m_ba ba
+   | None when c.ord <> None -> ()
    | None ->
        let site = match c.site with Some s -> s | None -> failwith "no site" in
        let cell = match c.cell with Some s -> s | None -> failwith "no cell" in
@@ -233,6 +263,8 @@ let main (path : string) : unit =
              c.lj2 <- Some ({ lx = h x1; ly = h y1; lsigma = h s1; leps = h e1; lcut = Option.map f2c (opt_float_of_tok c1) },
                             { lx = h x2; ly = h y2; lsigma = h s2; leps = h e2; lcut = Option.map f2c (opt_float_of_tok c2) },
                             float_of_hex eab, float_of_hex eba)
+         | 'O', [_; a; b; cc; cmps; eqs; left; right; iter] ->
+             c.ord <- Some ([| opt_float_of_tok a; opt_float_of_tok b; opt_float_of_tok cc |], cmps, eqs, left, right, iter)
          | 'N', _ -> c.nomodel <- true
          | 'E', _ ->
              let r = if c.nomodel then "OK strength=bit band=0 nomodel" else (try run_case c with e -> "MISMATCH exception " ^ Printexc.to_string e) in
